@@ -430,3 +430,7 @@ T('C12', 'bins-cast-float64', 'classify.py', "    bins = np.asarray(bins)\n    n
 M('C12', 'natural-breaks-sorts-input', 'classify.py', "        sample_data = data.flatten()\n\n    # warning", "        sample_data = data.ravel()\n\n    # warning", 'K6',
   edits=[('xrspatial/classify.py', "        sample_data = data.flatten()\n\n    # warning", "        sample_data = data.ravel()\n\n    # warning"),
          ('xrspatial/classify.py', "    sample_data = sample_data[np.isfinite(sample_data)]\n    uv = np.unique(sample_data)", "    if not np.isfinite(sample_data).all():\n        sample_data = sample_data[np.isfinite(sample_data)]\n    uv = np.unique(sample_data)")])
+M('C09', 'apply-dask-pads-swapped', 'focal.py', "    pad_h = kernel.shape[0] // 2\n    pad_w = kernel.shape[1] // 2\n\n    out = data.map_overlap(_func,", "    pad_w, pad_h = (s // 2 for s in kernel.shape)\n\n    out = data.map_overlap(_func,", 'H1')
+M('C09', 'mean-equal-tolerance', 'focal.py', "    if x == y or (np.isnan(x) and np.isnan(y)):\n        return True", "    if abs(x - y) <= 1e-6 or (np.isnan(x) and np.isnan(y)):\n        return True", 'F2')
+M('C19', 'annulus-inplace-subtract', 'convolution.py', "    kernel = kernel_outer - pad_kernel", "    kernel = np.subtract(kernel_outer, pad_kernel, out=kernel_outer)", 'E4')
+M('C19', 'great-circle-law-of-cosines', 'proximity.py', "    return radius * 2 * np.arcsin(np.sqrt(a))", "    return radius * np.arccos(min(1.0, max(-1.0, np.sin(lat1) * np.sin(lat2) + np.cos(lat1) * np.cos(lat2) * np.cos(dlon))))", 'V1')
